@@ -61,6 +61,9 @@ def read_model_parameters(
             # no compartment left to thicken: extend the bottom one
             soil.profile.loc[soil.profile.index[-1], "dz"] += 0.1
             soil.fill_nan()
+            # (a profile of a single compartment: the top soil is never
+            # thinner than the first compartment, as in the Soil constructor)
+            soil.z_top = max(soil.z_top, float(soil.profile.dz.iloc[0]))
 
     # TODO: Why all these commented lines? The model does not allow rotations now?
     ###########
